@@ -9,6 +9,7 @@ import (
 	"fmt"
 	"math/big"
 	"os"
+	"strings"
 	"time"
 
 	"github.com/formancehq/go-libs/v5/pkg/types/metadata"
@@ -65,7 +66,9 @@ func CaptureWrites(lenient bool) ([]Captured, error) {
 			defer func() { _ = recover() }()
 			err = fn()
 		}()
-		if err != nil && firstErr == nil && !lenient {
+		// only statements minisql cannot parse are failures here: semantic
+		// errors (e.g. "not found" on an empty result) are expected when recording
+		if err != nil && firstErr == nil && !lenient && strings.Contains(err.Error(), "pgfake:") {
 			firstErr = fmt.Errorf("%s: %w", name, err)
 		}
 		out = append(out, Captured{Name: name, Doc: doc, Stmts: srv.Log()})
